@@ -209,6 +209,83 @@ def run_case(j, e):
             j.sample({"case": e})
 
 
+def spread(lc, m):
+    """m members of class lc that are far apart and NOT monotone (angles either side of +-pi, different axes,
+    both signs of a quaternion): a per-value result must not depend on the neighbouring values"""
+    import gamma
+    import math
+    ang = [3.0, -3.0, 2.0, -2.0, 0.1][:m]
+    out = []
+    for k, a in enumerate(ang):
+        R = [gamma.rotz, gamma.rotx, gamma.roty][k % 3](a) @ gamma.rotz(0.3 * k)
+        t = np.array([1.0 + k, -2.0 * k, 0.5])
+        if lc == "SO2":
+            out.append(gamma.rotz(a)[:2, :2])
+        elif lc == "SE2":
+            out.append(gamma.real_T3(a, t[:2]))
+        elif lc == "SO3":
+            out.append(R)
+        elif lc == "SE3":
+            T = np.eye(4)
+            T[:3, :3], T[:3, 3] = R, t
+            out.append(T)
+        elif lc == "UnitQuaternion":
+            q = np.r_[math.cos(a / 2), math.sin(a / 2) * np.array([0.6, 0.0, 0.8])]
+            out.append(q if k % 2 == 0 else -q)
+        elif lc == "Quaternion":
+            out.append(np.array([a, 1.0 + k, -2.0, 0.5 * k]))
+        elif lc == "Twist3":
+            out.append(np.r_[t, a * np.array([0.6, 0.0, 0.8])])
+        elif lc == "Twist2":
+            out.append(np.r_[t[:2], a])
+        else:
+            return None
+    return out
+
+
+def spread_case(j, e):
+    """the same per-value accessor / unary method on an object holding SPREAD values"""
+    op, L, R, out = e["op"], e["l"], e["r"], e["out"]
+    lc, m = L["c"], L["n"]
+    opt = R.get("opt", "")
+    if op in OPS or op == "interp" or op.startswith("->") or m < 2 or out["doc"]["k"] in ("unspec", "raise"):
+        return
+    vals = spread(lc, m)
+    if vals is None:
+        return
+    C = elems.CLS[lc]
+    x = C()
+    x.data = [np.array(v, copy=True) for v in vals]
+    singles = []
+    for v in vals:
+        y = C()
+        y.data = [np.array(v, copy=True)]
+        singles.append(y)
+    cid = (op, lc, "spread", m, opt)
+    feat = "%sspread-values;len=%d" % (("[" + opt + "];") if opt else "", m)
+    site = "%s.%s" % (lc, op)
+    exp = []
+    for y in singles:
+        ok, v = single(lambda: call_unary(y, op, opt))
+        if not ok:
+            j.skip("single-valued operation itself raises (not a broadcasting matter)")
+            return
+        exp.append(v)
+    ok, r = single(lambda: call_unary(x, op, opt))
+    if not ok:
+        j.fail("%s|%s|%s|raised-%s" % (PID, site, feat, r), {"op": op, "cls": lc, "m": m, "opt": opt}, cid)
+        return
+    got = items(r, m, exp)
+    if got is None:
+        j.fail("%s|%s|%s|wrong-length" % (PID, site, feat), {"op": op, "cls": lc, "m": m, "got": srepr(r)}, cid)
+        return
+    bad = [i + 1 for i, (g, x_) in enumerate(zip(got, exp)) if not same(g, x_)]
+    if bad:
+        j.fail("%s|%s|%s|wrong-element" % (PID, site, feat), {"op": op, "cls": lc, "m": m, "wrong_positions": bad, "got": srepr(r)}, cid)
+    else:
+        j.ok(cid)
+
+
 def run(tier):
     j = Judge(PID)
     r = run_tlc("MC_Dispatch", "Dispatch_c09", timeout=300)
@@ -219,6 +296,7 @@ def run(tier):
             continue
         seen.add(key)
         run_case(j, e)
+        spread_case(j, e)
     if len(seen) < 5000:
         raise MachineryError("C09 export too small: %d" % len(seen))
     n_cells = j.evaluations
